@@ -10,14 +10,20 @@
                         swarm.refs.Add(1) and spawns the stream goroutine
      TStreamAdded c ok  the stream goroutine's c.addStream returned and the
                         goroutine released its ref (refs.Done is NOT deferred:
-                        the handler runs outside Swarm.Close's wait).  ok=false
-                        (the stream is dropped) only once doClose has nil-ed
-                        c.streams.m (after removeConn, before the transport
-                        Close); ok=true only before the transport Close begins
+                        the handler runs outside Swarm.Close's wait).  ok=true:
+                        addStream registered the stream in c.streams.m and took a
+                        ref for it (so the count is unchanged), possible only
+                        before the transport Close begins; ok=false (the stream
+                        is dropped, the ref is gone) only once doClose has nil-ed
+                        c.streams.m (after removeConn, before the transport Close)
      THandle c          the swarm's stream handler is called with a stream of c
+     TStreamClosed c    an open stream of c is closed / reset (by its user at any
+                        time, or by doClose's reset loop) and releases its ref
+   doClose resets every registered stream before it spawns the notification
+   goroutine: SDSpawn c needs no open stream of c.
    Swarm.Close's refs.Wait (label SWaited of SwModel) additionally needs the
-   stream goroutines' refs to be released: the real WaitGroup is
-   refs (sw) + t_refs.
+   stream goroutines' and the open streams' refs to be released: the real
+   WaitGroup is refs (sw) + t_refs.
      TListed c b        a reader takes conns.RLock and finds c listed (b=true) or
                         not: b = c is in the table.  Not while Swarm.close holds
                         the lock (niling). *)
@@ -27,15 +33,16 @@ Import ListNotations.
 
 Record tstate := mkT {
   sw : sstate;
-  t_refs : nat;                 (* refs held by stream goroutines still in addStream *)
+  t_refs : nat;                 (* refs held by stream goroutines still in addStream and by open streams *)
   t_add : list (nat * nat);     (* per conn: accepted streams whose addStream has not returned *)
-  t_hand : list (nat * nat)     (* per conn: added streams not yet given to the handler *)
+  t_hand : list (nat * nat);    (* per conn: added streams not yet given to the handler *)
+  t_open : list (nat * nat)     (* per conn: registered streams not yet closed *)
 }.
-Definition tinit : tstate := mkT sinit 0 [] [].
+Definition tinit : tstate := mkT sinit 0 [] [] [].
 
 Inductive tlabel :=
 | TX (x : xlabel)
-| TStreamIn (c : nat) | TStreamAdded (c : nat) (ok : bool) | THandle (c : nat)
+| TStreamIn (c : nat) | TStreamAdded (c : nat) (ok : bool) | THandle (c : nat) | TStreamClosed (c : nat)
 | TListed (c : nat) (b : bool).
 
 (* c.streams.m is certainly still there / certainly nil *)
@@ -43,16 +50,18 @@ Definition streams_open (d : dpc) : bool := match d with D0 | DUnregP | DTCloseP
 Definition streams_nil_possible (d : dpc) : bool := match d with D0 | DUnregP => false | _ => true end.
 
 Definition lift_sw (ts : tstate) (o : option sstate) : option tstate :=
-  match o with Some s' => Some (mkT s' (t_refs ts) (t_add ts) (t_hand ts)) | None => None end.
+  match o with Some s' => Some (mkT s' (t_refs ts) (t_add ts) (t_hand ts) (t_open ts)) | None => None end.
 
 Definition tstep (cap : nat) (ts : tstate) (l : tlabel) : option tstate :=
   match l with
   | TX (XS SWaited) =>
       match t_refs ts with O => lift_sw ts (sstep cap (sw ts) (XS SWaited)) | S _ => None end
+  | TX (XS (SDSpawn c)) =>
+      match get 0 c (t_open ts) with O => lift_sw ts (sstep cap (sw ts) (XS (SDSpawn c))) | S _ => None end
   | TX x => lift_sw ts (sstep cap (sw ts) x)
   | TStreamIn c =>
       match s_pc (sg (sw ts) c) with
-      | LRun => Some (mkT (sw ts) (S (t_refs ts)) (set c (S (get 0 c (t_add ts))) (t_add ts)) (t_hand ts))
+      | LRun => Some (mkT (sw ts) (S (t_refs ts)) (set c (S (get 0 c (t_add ts))) (t_add ts)) (t_hand ts) (t_open ts))
       | _ => None
       end
   | TStreamAdded c ok =>
@@ -61,17 +70,23 @@ Definition tstep (cap : nat) (ts : tstate) (l : tlabel) : option tstate :=
           let d := d_pc (sg (sw ts) c) in
           if ok then
             if streams_open d
-            then Some (mkT (sw ts) (pred (t_refs ts)) (set c n (t_add ts)) (set c (S (get 0 c (t_hand ts))) (t_hand ts)))
+            then Some (mkT (sw ts) (t_refs ts) (set c n (t_add ts)) (set c (S (get 0 c (t_hand ts))) (t_hand ts))
+                           (set c (S (get 0 c (t_open ts))) (t_open ts)))
             else None
           else
             if streams_nil_possible d
-            then Some (mkT (sw ts) (pred (t_refs ts)) (set c n (t_add ts)) (t_hand ts))
+            then Some (mkT (sw ts) (pred (t_refs ts)) (set c n (t_add ts)) (t_hand ts) (t_open ts))
             else None
       | O => None
       end
   | THandle c =>
       match get 0 c (t_hand ts) with
-      | S n => Some (mkT (sw ts) (t_refs ts) (t_add ts) (set c n (t_hand ts)))
+      | S n => Some (mkT (sw ts) (t_refs ts) (t_add ts) (set c n (t_hand ts)) (t_open ts))
+      | O => None
+      end
+  | TStreamClosed c =>
+      match get 0 c (t_open ts) with
+      | S n => Some (mkT (sw ts) (pred (t_refs ts)) (t_add ts) (t_hand ts) (set c n (t_open ts)))
       | O => None
       end
   | TListed c b =>
